@@ -137,6 +137,9 @@ type packedJob struct {
 	store   string
 	states  []packedState
 	rolled  bool
+	// noPunch: the job's directory stands for a file system without hole punching (main.go
+	// noPunchMark): every removal below it takes the zero-fill fallback of dele.go
+	noPunch bool
 }
 
 func (j *packedJob) fail(format string, a ...any) {
@@ -168,6 +171,17 @@ func (j *packedJob) prepare() bool {
 		}
 	}
 	n := len(h.Ops)
+	// removals that have a body to release (a present, non-empty blob): each of them asks for the hole punch once
+	bodyRemovals := int64(0)
+	{
+		here := map[int]bool{}
+		for _, op := range h.Ops {
+			if !op.Recv && here[op.B] && len(w.Uni[op.B].Data) > 0 {
+				bodyRemovals++
+			}
+			here[op.B] = op.Recv
+		}
+	}
 	for _, op := range h.Ops[:n-1] {
 		do(op)
 	}
@@ -220,6 +234,15 @@ func (j *packedJob) prepare() bool {
 		return false
 	}
 	os.RemoveAll(live)
+	if j.noPunch {
+		// the control point must have been effective for THIS history: every removal with a body was
+		// refused the punch (and so went through the zero fill)
+		if got := noPunchRefused(j.dir); got < bodyRemovals {
+			j.fail("directory marked as not supporting hole punching, but only %d of %d removals were refused the punch: the zero-fill fallback was not exercised", got, bodyRemovals)
+			return false
+		}
+		r.Count("nopunch_removals_zero_filled_in_histories", int(bodyRemovals))
+	}
 	if len(atIdx) > 1 {
 		// the first mutation is the earliest instant at which the index can differ from "before"
 		r.Count("last_ops_with_several_index_mutations", 1)
@@ -252,6 +275,9 @@ func (j *packedJob) prepare() bool {
 	crashOff := int64(-1)
 	add := func(st packedState) {
 		st.crashPack, st.crashOff = crashPack, crashOff
+		if j.noPunch {
+			st.detail += "; store directory WITHOUT hole punching (removals zero-fill the body)"
+		}
 		j.states = append(j.states, st)
 	}
 	// every state is restarted a second time through the operator's recovery path: a fresh index
@@ -431,20 +457,28 @@ func (j *packedJob) prepare() bool {
 		j.fail("cannot locate the single record of the removed blob in %s", name)
 		return false
 	}
+	crashPack, crashOff = name, int64(hp)
+	// A completed remove that did something else to the pack than "rewrite the header, zero the body"
+	// cannot be cut into crash states by the materialiser (the run is inconclusive about them); the
+	// state the ACKNOWLEDGED remove left is still a state to restart on, exactly as it is on disk.
+	asExecuted := func(format string, a ...any) bool {
+		why := fmt.Sprintf(format, a...)
+		j.fail("%s", why)
+		add(packedState{kind: "remove-as-executed", off: "-", index: "after", packs: map[string][]byte{name: cur},
+			detail: "pack files and index exactly as the completed remove left them (no crash state could be derived: " + why + ")"})
+		return true
+	}
 	for i := range old {
 		if old[i] != cur[i] && (i <= hp || i >= hp+L || i == hp+H-1) {
-			j.fail("remove changed byte %d of %s outside the record's header/body", i, name)
-			return false
+			return asExecuted("remove changed byte %d of %s outside the record's header/body (record at %d, header %d bytes, body %d bytes)", i, name, hp, H, L-H)
 		}
 	}
 	if !bytes.Equal(cur[hp+H:hp+L], make([]byte, L-H)) {
-		j.fail("remove did not zero the body")
-		return false
+		return asExecuted("remove did not zero the body")
 	}
 	if hp+L < len(old) || name != namesA[len(namesA)-1] {
 		r.Note("events", "remove-in-older-position")
 	}
-	crashPack, crashOff = name, int64(hp)
 	size := L - H
 	mid := pm[name]
 	if len(atIdx) != 1 || len(mid) != len(old) {
@@ -465,7 +499,7 @@ func (j *packedJob) prepare() bool {
 	// of the two comes first when both lie on the same side of it is OBSERVED too: the system-call
 	// trace of the diskpacked child (trace.go) shows the order of the pack writes of a remove.  Only
 	// without a usable trace is the order of dele.go as it was read (header first) assumed.
-	packOrders, orderSource := packOrder.removeOrders()
+	packOrders, orderSource := packOrder.removeOrders(j.noPunch)
 	r.Note("pack_write_order_source", orderSource)
 	var seqs [][]string
 	for _, po := range packOrders {
@@ -654,6 +688,10 @@ func (j *packedJob) runCase(i int) {
 		r.Count("restarts_diskpacked_"+st.mode, 1)
 		r.Note("restart_modes", st.mode)
 		r.Note("restarts_"+st.mode, strings.TrimPrefix(st.kind, "pl-"))
+		if j.noPunch {
+			r.Count("restarts_diskpacked_nopunch_"+st.mode, 1)
+			r.Note("restarts_"+st.mode+"_nopunch", strings.TrimPrefix(st.kind, "pl-"))
+		}
 		r.Distinct(j.store + "|" + j.h.ID + "|" + st.kind + "|" + st.off)
 		if o.violations == 0 {
 			r.Count("cases_held", 1)
@@ -663,6 +701,10 @@ func (j *packedJob) runCase(i int) {
 		}
 		sampleFirst(r, "diskpacked-mode-"+st.mode+"-"+strings.SplitN(st.kind, "-", 2)[0], map[string]any{"case": info, "continued_with": o.trace})
 		return
+	}
+	if j.noPunch {
+		r.Count("restarts_diskpacked_nopunch", 1)
+		r.Note("crash_states_diskpacked_nopunch", strings.TrimPrefix(st.kind, "pl-"))
 	}
 	r.Count("restarts_diskpacked", 1)
 	r.Note("restarts", "diskpacked/"+st.kind)
